@@ -6,7 +6,8 @@
 
    INTERFACE
      read_with tk pr rg ignore remap s : pyres rresult   -- tk = tokenizer, pr = parser, rg = "radical index guard present"
-     read ignore remap s               = read_with tokenize parse false ignore remap s      (the code as it is)
+     read ignore remap s               = read_with tokenize parse true ignore remap s       (the code as it is: both
+                                       branches of smiles() check the CX radical index and raise IncorrectSmiles)
      pp_molecule / pp_reaction         the two numbering functions on lists of parsed atom maps (0 = no map)
    Exceptions: MappingError, EmptyReaction ... are ValueError subclasses and appear as Err ValueError. *)
 From Coq Require Import ZArith List String Ascii Bool.
@@ -385,9 +386,10 @@ Definition contract_roles (contract : list (list Z)) (R P G : list (list ascii))
                               let some l := flat_map (fun (o : option (list ascii)) => match o with Some x => [x] | None => [] end) l in
                               let n := List.length nm3 in
                               let nlp := Z.to_nat lp in let nlr := Z.to_nat lr in
-                              (* new_molecules[:lr], new_molecules[-lp:], new_molecules[lr:-lp]   (-0 is 0 in Python) *)
-                              let prod := if lp =? 0 then nm3 else skipn (n - nlp) nm3 in
-                              let reag := if lp =? 0 then [] else skipn nlr (firstn (n - nlp) nm3) in
+                              (* new_molecules[:lr], new_molecules[mol_count - lp:], new_molecules[lr: mol_count - lp]
+                                 (n = mol_count >= lr + lp, so no index is negative) *)
+                              let prod := skipn (n - nlp) nm3 in
+                              let reag := skipn nlr (firstn (n - nlp) nm3) in
                               Ok (some (firstn nlr nm3), some prod, some reag)
                             end
                 end
@@ -457,7 +459,7 @@ Definition read_with (ignore remap : bool) (s : string) : pyres rresult :=
   end.
 End READ.
 
-Definition read : bool -> bool -> string -> pyres rresult := read_with tokenize parse false.
+Definition read : bool -> bool -> string -> pyres rresult := read_with tokenize parse true.
 
 (* ------------------------------------------------------------------------------------------------ text form (correspondence) *)
 Open Scope string_scope.
